@@ -10,11 +10,13 @@ P("C18",
              "are refused as 'must be paused or drained', accepted once paused), c18_paused_silent (no data response between a Pause/Drain "
              "acknowledgement and the next Enable/Reset acknowledgement except while a Drain is the oldest unanswered command), "
              "c18_drain_quiescent_paused, c18_reset_quiescent_enabled (incl. no later response to a pre-reset request), "
-             "c18_queued_served_after_enable, c18_answered_at_most_once. Tie: every history recorded at the Control/Top ports of the twelve "
+             "c18_queued_served_after_enable, c18_answered_at_most_once; and, for the exact tick-level model of the ideal memory controller's control path "
+             "(Ideal.ideal_tick, compared tick by tick with the real component), c18_ideal_one_response_in_order, c18_ideal_verbs, "
+             "c18_ideal_drain_quiescent_paused, c18_ideal_reset_quiescent_enabled for every input sequence. Tie: every history recorded at the Control/Top ports of the twelve "
              "real agents (own Builders, scripted requester, delaying lower-module stub) is evaluated by the acceptor inside Coq on every run. "
              "The agents' internals are NOT modelled: the theorems speak about accepted histories, and the real agents are tied to them only "
              "on the histories exercised.",
-  level_note="Unmodelled: the data paths and control middlewares of idealmemcontroller, dram, simplebankedmemory, cache/writeback, "
+  level_note="Unmodelled: the data paths and control middlewares of (idealmemcontroller: data path only), dram, simplebankedmemory, cache/writeback, "
              "cache/writethroughcache, vm/tlb, vm/mmuCache, vm/mmu, vm/gmmu, vm/addresstranslator, rob, datamover (tied by trace inclusion only). "
              "Refinements of the literal statement that the real protocol forces and the acceptor makes explicit: (1) data responses are allowed "
              "while a Drain is being carried out even if a Pause was acknowledged before it; (2) agents start a queued command in the very tick in "
